@@ -24,6 +24,7 @@ var compArmedFn = Comp{"$armedFn", "(Array Int Int)", false}
 var compLogsRemoved = Comp{"$logsRemoved", "(Array Int Bool)", false}
 var compUUIDFailed = Comp{"$uuidFailed", "Bool", false}
 var compWgWaited = Comp{"$wgWaited", "Bool", false}
+var compWgTokens = Comp{"$wgTokens", "Int", false}
 
 // ghost file system (C09): path id -> state (0 absent, 1 partial, 2 complete encoding of $fsData[path])
 var compFsState = Comp{"$fsState", "(Array Int Int)", false}
@@ -373,6 +374,67 @@ func initExterns() {
 				tr.havocAll(st)
 			}
 			return err
+		}}
+	// upstream taskctl scheduler graph: statuses are cells of Stage.Status; the dependency list and node lookup are
+	// deterministic functions of the (immutable after construction) graph
+	const stPkg = "github.com/taskctl/taskctl/pkg/scheduler"
+	stageStatusLoc := func(tr *FnCtx, stage *Val) *Val {
+		var st types.Type
+		if p := tr.W.Prog.ImportedPackage(stPkg); p != nil {
+			st = p.Pkg.Scope().Lookup("Stage").Type()
+		}
+		if st == nil {
+			return nil
+		}
+		var ft types.Type
+		stru := st.Underlying().(*types.Struct)
+		for i := 0; i < stru.NumFields(); i++ {
+			if stru.Field(i).Name() == "Status" {
+				ft = stru.Field(i).Type()
+			}
+		}
+		return &Val{T: types.NewPointer(ft), Loc: &Loc{Kind: LField, Obj: stage.one(), S: st, Prefix: "Status", T: ft}}
+	}
+	externs["(*"+stPkg+".Stage).ReadStatus"] = &externH{doc: "ReadStatus: atomic load of Stage.Status", fn: func(tr *FnCtx, st *State, args []*Val, resT types.Type, instr ssa.Instruction, mode string) *Val {
+		tr.use("scheduler.Stage.ReadStatus/UpdateStatus are an atomic load/store of the Status field")
+		l := stageStatusLoc(tr, args[0])
+		if l == nil {
+			return tr.freshVal(resT, "status")
+		}
+		return tr.loadFrom(st, l, resT)
+	}}
+	externs["(*"+stPkg+".Stage).UpdateStatus"] = &externH{mods: []string{"scheduler.Stage.Status"}, doc: "UpdateStatus: atomic store of Stage.Status", fn: func(tr *FnCtx, st *State, args []*Val, resT types.Type, instr ssa.Instruction, mode string) *Val {
+		tr.use("scheduler.Stage.ReadStatus/UpdateStatus are an atomic load/store of the Status field")
+		l := stageStatusLoc(tr, args[0])
+		if l != nil {
+			tr.storeTo(st, l, &Val{T: l.Loc.T, A: args[1].A})
+		}
+		return unit(resT)
+	}}
+	externs["(*"+stPkg+".ExecutionGraph).To"] = &externH{doc: "To(name): the dependency names of the stage, a function of the graph", fn: func(tr *FnCtx, st *State, args []*Val, resT types.Type, instr ssa.Instruction, mode string) *Val {
+		tr.use("scheduler.ExecutionGraph.To/Node are deterministic functions of an immutable graph (To: dependency names, Node: stage by name)")
+		g, n := args[0].one(), args[1].one()
+		ln := "(uf2 31 " + g + " " + n + ")"
+		tr.assume("(>= " + ln + " 0)")
+		return &Val{T: resT, A: []string{"(uf2 30 " + g + " " + n + ")", "0", ln, ln}}
+	}}
+	externs["(*"+stPkg+".ExecutionGraph).Node"] = &externH{doc: "Node(name): the stage registered under the name", fn: func(tr *FnCtx, st *State, args []*Val, resT types.Type, instr ssa.Instruction, mode string) *Val {
+		tr.use("scheduler.ExecutionGraph.To/Node are deterministic functions of an immutable graph (To: dependency names, Node: stage by name)")
+		tup := resT.(*types.Tuple)
+		err := tr.freshVal(tup.At(1).Type(), "nodeerr")
+		return tupleOf(resT, &Val{T: tup.At(0).Type(), A: []string{"(uf2 32 " + args[0].one() + " " + args[1].one() + ")"}}, err)
+	}}
+	externs["(*sync.WaitGroup).Add"] = &externH{mods: []string{"$wgTokens"}, doc: "WaitGroup.Add(n): ghost token counter += n",
+		fn: func(tr *FnCtx, st *State, args []*Val, resT types.Type, instr ssa.Instruction, mode string) *Val {
+			tr.use("sync.WaitGroup: ghost token counter $wgTokens (Add adds, Done removes one); Wait returns when it is zero")
+			tr.set(st, compWgTokens, "(+ "+tr.cur(st, compWgTokens)+" "+args[1].one()+")")
+			return unit(resT)
+		}}
+	externs["(*sync.WaitGroup).Done"] = &externH{mods: []string{"$wgTokens"}, doc: "WaitGroup.Done: ghost token counter -= 1",
+		fn: func(tr *FnCtx, st *State, args []*Val, resT types.Type, instr ssa.Instruction, mode string) *Val {
+			tr.use("sync.WaitGroup: ghost token counter $wgTokens (Add adds, Done removes one); Wait returns when it is zero")
+			tr.set(st, compWgTokens, "(- "+tr.cur(st, compWgTokens)+" 1)")
+			return unit(resT)
 		}}
 	externs["(*sync.WaitGroup).Wait"] = &externH{mods: []string{"$wgWaited"}, doc: "WaitGroup.Wait returns when the counter is zero (ghost $wgWaited records that the wait happened)",
 		fn: func(tr *FnCtx, st *State, args []*Val, resT types.Type, instr ssa.Instruction, mode string) *Val {
